@@ -2032,7 +2032,8 @@ class RawExtrinsicMetadata(BaseHashableModel):
     @classmethod
     def from_dict(cls, d):
         if "type" in d:
-            # Convert from old schema
+            # Convert from old schema (on a copy: the caller's dictionary is not ours)
+            d = d.copy()
             type_ = d.pop("type")
             if type_ == "origin":
                 d["target"] = str(Origin(d["target"]).swhid())
